@@ -54,8 +54,14 @@ def SetOpcode (f : PFrame) (c : UInt8) : M PFrame := do
 def putBE (f : PFrame) (k : Nat) (v : Nat) : M PFrame :=
   if 2 ≤ f.len ∧ k ≤ f.len - 2 then f.copyAt 2 (Spec.WsFrame.beBytes k v) else throw .indexRange
 
-/-- `setPayloadLength(n)` for `n = len(b) ≥ 0` (`uint64(n)`, `uint16(n)`, `byte(n)` are exact in their branches). -/
+/-- `util.ExtendSlice(f, need)`: `f[:cap(f)]`, grown with zeros if `need > cap(f)`, then `[:need]`. -/
+def extend (f : PFrame) (need : Nat) : PFrame :=
+  { arr := if need > f.arr.length then f.arr ++ List.replicate (need - f.arr.length) 0 else f.arr, len := need }
+
+/-- `setPayloadLength(n)` for `n = len(b) ≥ 0` (`uint64(n)`, `uint16(n)`, `byte(n)` are exact in their branches). A reused
+frame that was shrunk below the full header is first re-extended to 14 bytes (`frameMaxHeaderLength`). -/
 def setPayloadLength (f : PFrame) (n : Nat) : M PFrame := do
+  let f := if f.len < frameMaxHeaderLength then f.extend frameMaxHeaderLength else f
   let f ← f.modify 1 (· &&& 0x80)
   if n > 65535 then
     let f ← f.modify 1 (· ||| 127)
@@ -64,10 +70,6 @@ def setPayloadLength (f : PFrame) (n : Nat) : M PFrame := do
     let f ← f.modify 1 (· ||| 126)
     f.putBE 2 n
   else f.modify 1 (· ||| UInt8.ofNat n)
-
-/-- `util.ExtendSlice(f, need)`: `f[:cap(f)]`, grown with zeros if `need > cap(f)`, then `[:need]`. -/
-def extend (f : PFrame) (need : Nat) : PFrame :=
-  { arr := if need > f.arr.length then f.arr ++ List.replicate (need - f.arr.length) 0 else f.arr, len := need }
 
 /-- `SetPayload(b)`. -/
 def SetPayload (f : PFrame) (b : List UInt8) : M PFrame := do
